@@ -108,6 +108,34 @@ def aux_sha1(ctx):
     return bad, len(lens)
 
 
+def compile_gate(job):
+    """every emitted file must compile on its own against the generated header (concrete gcc -fsyntax-only)"""
+    incs = []
+    for i in job.incs:
+        incs += ['-I', i]
+    for s in job.sources:
+        if os.path.basename(s) in ('h.c', 'dsblob.c'):
+            continue
+        r = subprocess.run(['gcc', '-fsyntax-only', '-w'] + incs + job.defs + [s], capture_output=True, text=True, env=dict(os.environ, LC_ALL='C'))
+        if r.returncode != 0:
+            import re
+            m = re.search(r'error: ([^\n]*)', r.stderr)
+            return '%s does not compile on its own against the generated header: %s' % (os.path.basename(s), m.group(1) if m else r.stderr[-200:])
+    return None
+
+
+def gated(jobs, j):
+    if isinstance(j, dict):
+        jobs.append(j)
+        return
+    err = compile_gate(j)
+    if err:
+        jobs.append({'pre_violation': True, 'name': 'compile_' + j.name, 'desc': 'options %s: emitted file %s' % (' '.join(j.sample.get('w2c2_options', [])), err),
+                     'dir': os.path.dirname(j.sources[0]), 'group': j.group})
+    else:
+        jobs.append(j)
+
+
 def make_jobs(ctx):
     jobs = []
     mods = option_family(ctx)
@@ -116,7 +144,7 @@ def make_jobs(ctx):
         nf = len(m.funcs)
         for oi, o in enumerate(opt_sets(nf, ctx.quick)):
             hk = {'max_host_calls': 12}
-            jobs.append(e2_job(ctx, '%s_opt%d' % (name, oi), m, script, opts=o, backends=['sat', 'kissat'], unwind=14 if name != 'cf' else 6, page=64, harness_kw=hk,
+            gated(jobs, e2_job(ctx, '%s_opt%d' % (name, oi), m, script, opts=o, backends=['sat', 'kissat'], unwind=14 if name != 'cf' else 6, page=64, harness_kw=hk,
                                extra_flags=['--unwindset', 'streq.0:26'], group='%s_%s' % (name, ' '.join(o)), sample={'module': name, 'options': o}))
         # -r reference module: same module (all static), one body changed, empty module
         for ri, refm in enumerate(('same', 'changed', 'empty')):
@@ -133,7 +161,7 @@ def make_jobs(ctx):
             os.makedirs(ctx.dir('e2_%s_ref%d' % (name, ri)), exist_ok=True)
             rp = os.path.join(ctx.dir('e2_%s_ref%d' % (name, ri)), 'ref.wasm')
             open(rp, 'wb').write(rb)
-            jobs.append(e2_job(ctx, '%s_ref%d' % (name, ri), m, script, opts=['-r', 'ref.wasm', '-f', '1', '-t', '2'], backends=['sat', 'kissat'], unwind=14 if name != 'cf' else 6, page=64,
+            gated(jobs, e2_job(ctx, '%s_ref%d' % (name, ri), m, script, opts=['-r', 'ref.wasm', '-f', '1', '-t', '2'], backends=['sat', 'kissat'], unwind=14 if name != 'cf' else 6, page=64,
                                harness_kw={'max_host_calls': 12}, extra_flags=['--unwindset', 'streq.0:26'], sample={'module': name, 'reference': refm}))
     # auxiliary, concrete: where did each function go under -r?  (the CBMC kernel of wasmSplitStaticAndDynamicFunctions - pointer walks over
     # arrays of 24-byte structs with memcmp - does not finish in 300 s / 50 GB on any back end; stated in DESIGN.md)
